@@ -203,6 +203,11 @@ def stat_cases(rng, quick):
         C.append(("anderson_darling_test", f"metrics.anderson_darling_test({arr([0.0] * n, 'float')})"))
         C.append(("anderson_darling_test", f"metrics.anderson_darling_test({arr([1.0] * n, 'float')})"))
     C.append(("anderson_darling_test", "metrics.anderson_darling_test(0.3)"))
+    # more than 46340 samples that fit very well: AnDarl.c formed n*n in int (found by the
+    # overflow-checked MiniC program, fixed by c81eaee); kept as a regression case
+    for n in (46340, 46341, 50000):
+        C.append(("anderson_darling_test",
+                  f"metrics.anderson_darling_test((np.arange({n}) + 0.5) / {n})"))
     for order in (0, 1, 2, 5, 10, 11, 12):
         params = [round(rng.uniform(-0.4, 0.4), 3) for _ in range(order)]
         for n in (0, 1, 2, 5):
